@@ -20,3 +20,8 @@ package seq
 // At is an observer (pure).
 //@ func (Sequence).At
 //@   pure
+
+// Sequences handed to the writers carry an alphabet (assumption).
+//@ func (Sequence).Alphabet
+//@   pure
+//@   ensures result != nil
